@@ -323,17 +323,18 @@ class Batch:
         self.scratch = os.path.join(BUILD, "scratch", prop + "-" + tier)
         self.deadline = 0
 
-    def add_viol(self, cls, sig, replay, ops, again=False):
+    def add_viol(self, cls, sig, replay, ops, again=False, origin=None):
         with self.lock:
             key = (cls, sig)
             v = self.viol.get(key)
             if v is None:
-                self.viol[key] = dict(replay=replay, ops=ops, count=1)
+                self.viol[key] = dict(replay=replay, ops=ops, count=1, origin=origin)
             else:
                 v["count"] += 1
                 if replay and (v["replay"] is None or ops < v["ops"]):
                     v["replay"] = replay
                     v["ops"] = ops
+                    v["origin"] = origin
 
     def worker(self, binary, wid, a, b, extra):
         chunk = ENGINES[self.engine].get("recycle")
@@ -365,7 +366,9 @@ class Batch:
                 elif line.startswith("VIOL "):
                     m = VIOL_RE.match(line)
                     if m:
-                        self.add_viol(m.group(2), m.group(3), m.group(6), int(m.group(4)))
+                        mo = re.search(r" from=(\d+) orig=(\S+)", line)
+                        origin = dict(binary=binary, run=int(m.group(7)), start=int(mo.group(1)), plan=mo.group(2), extra=extra) if mo else None
+                        self.add_viol(m.group(2), m.group(3), m.group(6), int(m.group(4)), origin=origin)
                     else:
                         self.harness_errors.append("unparsable: " + line)
                 elif line.startswith("VIOL-AGAIN"):
@@ -601,6 +604,19 @@ def run_check(prop, tier, seed):
             continue
         text = open(v["replay"]).read()
         ok, r = gate_replay(pick_binary(bins, text), prop, v["replay"], cls, sig)
+        if not ok and v.get("origin"):
+            # The minimised plan does not reproduce in a fresh process: the worker that found it carried
+            # state from earlier runs (something the code under test keeps across calls).  Start over
+            # from the unminimised plan, and failing that from the run range, in fresh processes.
+            o = v["origin"]
+            v["replay"] = None
+            batch.nondet = [dict(binary=o["binary"], run=o["run"], start=o["start"], cls=cls, sig=sig, plan=o["plan"], extra=o["extra"])]
+            resolve_nondet(batch)
+            if v["replay"]:
+                text = open(v["replay"]).read()
+                ok, r = gate_replay(pick_binary(bins, text), prop, v["replay"], cls, sig)
+            else:
+                continue  # resolve_nondet recorded why
         if not ok:
             batch.harness_errors.append("replay gate failed for %s (%s | %s): rc=%s out=%s" % (v["replay"], cls, sig, r.returncode, (r.stdout + r.stderr)[-400:]))
             continue
